@@ -121,24 +121,57 @@ def build_sysl(ctx):
     return out
 
 
-def vh(ctx, family, scenarios, extra=None, timeout=1800, race=False, env=None, name=None):
-    """Run the driver on a list of scenario dicts; returns the list of events."""
-    d = ctx.fresh(name or family)
-    inp = os.path.join(d, "scenarios.ndjson")
-    outp = os.path.join(d, "trace.ndjson")
-    with open(inp, "w") as f:
-        for s in scenarios:
-            f.write(json.dumps(s) + "\n")
+def vh(ctx, family, scenarios, extra=None, timeout=1800, race=False, env=None, name=None, resilient=False):
+    """Run the driver on a list of scenario dicts; returns the list of events.
+
+    resilient: the driver emits {"e":"start","t":id} (flushed) before each scenario; if the process dies
+    (fatal runtime error, panic in a goroutine the driver cannot guard) the scenario that was running
+    gets a {"e":"fatal"} event and the driver is restarted on the remaining scenarios."""
     exe = build_vh(ctx, race=race)
-    p = run([exe, family, "-in", inp, "-out", outp] + (extra or []), cwd=d, timeout=timeout, env=env)
-    if p.returncode != 0:
-        raise Infra("vh %s exited %d:\n%s" % (family, p.returncode, p.stderr[-4000:]))
-    evs = []
-    with open(outp) as f:
-        for line in f:
-            if line.strip():
-                evs.append(json.loads(line))
-    return evs, p.stderr
+    evs, errs = [], []
+    todo = list(scenarios)
+    crashes = 0
+    while True:
+        d = ctx.fresh(name or family)
+        inp = os.path.join(d, "scenarios.ndjson")
+        outp = os.path.join(d, "trace.ndjson")
+        with open(inp, "w") as f:
+            for s in todo:
+                f.write(json.dumps(s) + "\n")
+        p = run([exe, family, "-in", inp, "-out", outp] + (extra or []), cwd=d, timeout=timeout, env=env)
+        part = []
+        if os.path.exists(outp):
+            with open(outp) as f:
+                for line in f:
+                    line = line.strip()
+                    if not line:
+                        continue
+                    try:
+                        part.append(json.loads(line))
+                    except ValueError:
+                        break   # torn last line of a crashed run
+        errs.append(p.stderr)
+        if p.returncode == 0:
+            return evs + part, "".join(errs)
+        if not resilient:
+            raise Infra("vh %s exited %d:\n%s" % (family, p.returncode, p.stderr[-4000:]))
+        crashes += 1
+        starts = [e for e in part if e.get("e") == "start"]
+        if not starts or crashes > 40:
+            raise Infra("vh %s keeps dying (%d crashes):\n%s" % (family, crashes, p.stderr[-3000:]))
+        t = starts[-1]["t"]
+        # keep everything up to and including the last start, then record the death
+        cut = max(i for i, e in enumerate(part) if e.get("e") == "start" and e["t"] == t)
+        part = part[:cut + 1]
+        head = p.stderr.strip().splitlines()
+        msg = next((l for l in head if l.startswith(("panic:", "fatal error:"))), head[0] if head else "")
+        site = next((l.strip().split("(")[0] for l in head if l.strip().startswith("github.com/anz-bank/sysl/")), "unknown")
+        part.append({"t": t, "e": "fatal", "msg": msg[:300], "site": site.replace("github.com/anz-bank/sysl/", "")})
+        evs += part
+        idx = next(i for i, s in enumerate(todo) if s.get("id") == t)
+        todo = todo[idx + 1:]
+        if not todo:
+            return evs, "".join(errs)
 
 
 def vh_sharded(ctx, family, scenarios, shards=None, **kw):
